@@ -125,8 +125,19 @@ class Ctx:
                 return amount / closes[pi]
         return None
 
-    def cond_of(self, sym):
+    def lend_at(self, k=None):
+        """the lending configuration in force when step k ran (it changes at "recond" steps)"""
+        k = self.now if k is None else k
         lc = self.case["lend"]
+        if k is None:
+            return lc
+        for st in self.tr.steps[:k + 1]:
+            if st["op"][0] == "recond":
+                lc = st["lend_after"]
+        return lc
+
+    def cond_of(self, sym, k=None):
+        lc = self.lend_at(k)
         if lc is None:
             return None
         return lc["conds"].get(sym, lc["default"])
@@ -982,6 +993,20 @@ def mon_listing_after_failures(tr, out):
                     return
 
 
+def mon_holds_after_failures(tr, out):
+    """"Whenever no order is open nothing is on hold" -- also after a bar whose processing raised half-way: an order
+    that got closed has given its reservation back whatever happened afterwards."""
+    for k, st in enumerate(tr.steps):
+        snap = st["snap"]
+        if any(o["is_open"] for o in snap["orders"]):
+            continue
+        held = {s: b["hold"] for s, b in snap["balances"].items() if b["hold"] != 0}
+        if held:
+            out.append(("C06", "hold:on-hold-with-no-open-order", k,
+                        f"no order is open after {st['op']} and yet {held} is on hold"))
+            return
+
+
 def run_monitors(tr, which=None):
     # A bar whose processing raised (e.g. NoPrice while converting interest: a configuration without the prices its
     # lending conditions need) is outside the premises of the properties: monitor the history up to that bar only.
@@ -1018,4 +1043,6 @@ def run_monitors(tr, which=None):
             fn(ctx, out)
     if full_tr is not tr and (which is None or "C05" in which) and not out:
         mon_listing_after_failures(full_tr, out)
+    if (which is None or "C06" in which) and not out:
+        mon_holds_after_failures(full_tr, out)
     return out
